@@ -1,6 +1,10 @@
 (* Props/C14.v — property C14: chunk concatenation is total, deterministic and
    independent of chunk boundaries. Only statements, each closed by [exact]. *)
-From Eino Require Import Base.Util Model.Concat Proofs.Concat.
+From Eino Require Import Base.Util Model.Concat Model.ConcatMsg.
+From Eino Require Import Proofs.Concat Proofs.ConcatRechunk Proofs.ConcatMsg.
+From Coq Require Import Sorting.Sorted.
+
+(* ------------------------------------------------------------------ generic values *)
 
 (* Totality: for every statically typed chunk list (no nil item at top level; nil values
    may sit under any map key at any depth) the concatenation is a value or an ordinary
@@ -15,3 +19,144 @@ Example concat_total_nonvacuous :
   concat_stream [CMap [("k"%string, CNil)]; CMap [("k"%string, CStr "a")]; CMap [("j"%string, CNil)]]
   = Ok (CMap [("k"%string, CStr "a"); ("j"%string, CNil)]).
 Proof. vm_compute. reflexivity. Qed.
+
+(* Re-chunking: for a statically typed chunk stream (all chunks of dynamic type [t]),
+   concatenating a non-empty prefix first and then the rest gives exactly the same value
+   (first-appearance key order included) as concatenating everything at once, or both
+   fail; if the prefix alone fails, the whole fails. No side ever panics. *)
+Theorem concat_rechunk :
+  forall (t : cty) (xs ys : list cval),
+    xs <> [] -> (forall v, In v (xs ++ ys) -> dyn_ty v = Some t) ->
+    match concat_stream xs with
+    | Ok c =>
+        match concat_stream (c :: ys), concat_stream (xs ++ ys) with
+        | Ok a, Ok b => a = b
+        | Err _, Err _ => True
+        | _, _ => False
+        end
+    | Err _ => exists e, concat_stream (xs ++ ys) = Err e
+    | Panic => False
+    end.
+Proof. exact concat_stream_rechunk. Qed.
+Print Assumptions concat_rechunk.
+
+Example concat_rechunk_nonvacuous_ok :
+  let xs := [CMap [("k"%string, CStr "a"); ("n"%string, CMap [("x"%string, CNum 0 1)])];
+             CMap [("k"%string, CNil); ("n"%string, CMap [("x"%string, CNum 0 2); ("y"%string, COther 0 0)])]] in
+  let ys := [CMap [("n"%string, CMap [("y"%string, COther 0 7)]); ("k"%string, CStr "b")]] in
+  exists c, concat_stream xs = Ok c /\
+    concat_stream (c :: ys) = concat_stream (xs ++ ys) /\
+    concat_stream (xs ++ ys) =
+      Ok (CMap [("k"%string, CStr "ab"); ("n"%string, CMap [("x"%string, CNum 0 2); ("y"%string, COther 0 7)])]).
+Proof. eexists. split; [vm_compute; reflexivity|]. split; vm_compute; reflexivity. Qed.
+
+Example concat_rechunk_nonvacuous_err :
+  let xs := [CMap [("k"%string, COther 0 1)]; CMap [("j"%string, CStr "s")]] in
+  let ys := [CMap [("k"%string, COther 0 2)]] in
+  exists c, concat_stream xs = Ok c /\ concat_stream (c :: ys) = Err E_MULTI /\ concat_stream (xs ++ ys) = Err E_MULTI.
+Proof. eexists. split; [vm_compute; reflexivity|]. split; vm_compute; reflexivity. Qed.
+
+(* The same for concatMaps on any number of maps (the Extra maps of chat messages: no
+   single-chunk shortcut, even the empty prefix is allowed). *)
+Theorem concat_maps_rechunk :
+  forall xs ys : list (list (string * cval)),
+    match concat_maps_top xs with
+    | Ok c =>
+        match concat_maps_top (c :: ys), concat_maps_top (xs ++ ys) with
+        | Ok a, Ok b => a = b
+        | Ok _, _ => False
+        | _, Ok _ => False
+        | _, _ => True
+        end
+    | _ => is_ok (concat_maps_top (xs ++ ys)) = false
+    end.
+Proof. exact Proofs.ConcatRechunk.concat_maps_rechunk. Qed.
+Print Assumptions concat_maps_rechunk.
+
+(* ------------------------------------------------------------------ chat messages *)
+
+(* ConcatMessages, ConcatMessageStream / concatStreamReader[*Message] and
+   concatStreamReader[[]*Message] never panic, whatever the chunks (nil chunks, nil maps,
+   nil values under Extra keys, negative numbers, conflicting fields, ...). *)
+Theorem msg_concat_total :
+  (forall l, concat_msgs l <> Panic) /\ (forall l, msg_stream l <> Panic) /\ (forall l, msglist_stream l <> Panic).
+Proof. exact (conj concat_msgs_no_panic (conj msg_stream_no_panic msglist_stream_no_panic)). Qed.
+Print Assumptions msg_concat_total.
+
+(* Re-chunking for schema.ConcatMessages itself: for EVERY prefix [xs] (also a single
+   chunk, which ConcatMessages normalises, and the empty one) *)
+Theorem msg_concat_rechunk :
+  forall xs ys : list (option msg),
+    match concat_msgs xs with
+    | Ok c =>
+        match concat_msgs (Some c :: ys), concat_msgs (xs ++ ys) with
+        | Ok a, Ok b => a = b
+        | Err _, Err _ => True
+        | _, _ => False
+        end
+    | Err _ => exists e, concat_msgs (xs ++ ys) = Err e
+    | Panic => False
+    end.
+Proof. exact msgs_rechunk_strict. Qed.
+Print Assumptions msg_concat_rechunk.
+
+(* ... and for the stream-level entry points, which return a single chunk unmerged. *)
+Theorem msg_stream_rechunk :
+  forall xs ys : list (option msg),
+    xs <> [] ->
+    match msg_stream xs with
+    | Ok c =>
+        match msg_stream (c :: ys), msg_stream (xs ++ ys) with
+        | Ok a, Ok b => a = b
+        | Err _, Err _ => True
+        | _, _ => False
+        end
+    | Err _ => exists e, msg_stream (xs ++ ys) = Err e
+    | Panic => False
+    end.
+Proof. exact Proofs.ConcatMsg.msg_stream_rechunk. Qed.
+Print Assumptions msg_stream_rechunk.
+
+Definition ex_tc (i : option Z) (id args : string) (e : N) : toolcall := mkTC i id "" "" args e.
+Definition ex_m1 : msg :=
+  mkMsg "assistant" "" "" "Hel" [] [ex_tc (Some 1%Z) "c1" "{""a" 7; ex_tc None "n" "x" 0; ex_tc (Some 0%Z) "" "q" 0]
+        (Some (mkMeta "" (Some (mkUsage (-5) 3 2)) (Some ["t1"%string]))) [("k"%string, CStr "a"); ("z"%string, CNil)].
+Definition ex_m2 : msg :=
+  mkMsg "" "" "" "lo " [] [ex_tc (Some 1%Z) "" """:1" 9; ex_tc (Some 0%Z) "c0" "r" 3]
+        (Some (mkMeta "stop" (Some (mkUsage 4 1 9)) None)) [("k"%string, CStr "b")].
+Definition ex_m3 : msg :=
+  mkMsg "assistant" "" "" "W" ["p"%string] [ex_tc (Some 1%Z) "c1" "}" 0] None [("z"%string, CNum 0 4)].
+
+Example msg_rechunk_nonvacuous :
+  exists c, concat_msgs [Some ex_m1; Some ex_m2] = Ok c /\
+    concat_msgs [Some c; Some ex_m3] = concat_msgs [Some ex_m1; Some ex_m2; Some ex_m3] /\
+    concat_msgs [Some ex_m1; Some ex_m2; Some ex_m3] =
+      Ok (mkMsg "assistant" "" "" "Hello W" ["p"%string]
+            [ex_tc None "n" "x" 0; ex_tc (Some 0%Z) "c0" "qr" 0; ex_tc (Some 1%Z) "c1" "{""a"":1}" 7]
+            (Some (mkMeta "stop" (Some (mkUsage 4 3 9)) (Some ["t1"%string])))
+            [("k"%string, CStr "ab"); ("z"%string, CNum 0 4)]).
+Proof. eexists. split; [vm_compute; reflexivity|]. split; vm_compute; reflexivity. Qed.
+
+Example msg_rechunk_nonvacuous_err :
+  exists c, concat_msgs [Some ex_m1; Some ex_m2] = Ok c /\
+    concat_msgs [Some c; Some (mkMsg "user" "" "" "" [] [] None [])] = Err E_CONFLICT /\
+    concat_msgs [Some ex_m1; Some ex_m2; Some (mkMsg "user" "" "" "" [] [] None [])] = Err E_CONFLICT.
+Proof. eexists. split; [vm_compute; reflexivity|]. split; vm_compute; reflexivity. Qed.
+
+(* Order: the content is the arrival-order concatenation; tool calls without index come
+   first in arrival order; then exactly one call per distinct index, ascending, whose
+   arguments are the arrival-order concatenation of the fragments carrying that index. *)
+Theorem order_kept :
+  forall (l : list (option msg)) (r : msg),
+    concat_msgs l = Ok r ->
+    exists ms, all_some l = Some ms /\
+      m_content r = concat_strings (map m_content ms) /\
+      let cs := flat_map m_tcs ms in
+      exists il merged,
+        m_tcs r = filter is_nil_idx cs ++ merged /\
+        map tc_idx merged = map Some il /\
+        StronglySorted Z.lt il /\
+        (forall i, In i il <-> exists c, In c cs /\ tc_idx c = Some i) /\
+        Forall2 (fun i m => tc_args m = concat_strings (map tc_args (filter (has_idx i) cs))) il merged.
+Proof. exact order_kept_proof. Qed.
+Print Assumptions order_kept.
